@@ -662,6 +662,8 @@ func (s *Service) deleteJournal(ctx context.Context, j journal.Journal) bool {
 		return false
 	}
 
+	// acknowledged records count in Size() only after their flush: flush before deciding that the partition is empty
+	j.Sync()
 	if sz := j.Size(); sz > 0 {
 		s.TIndex.UnlockExclusively(jn)
 		s.logger.Warn("deleteJournal(): could not delete the partition ", jn, " the size is not 0: ", sz)
